@@ -34,7 +34,7 @@ class Gen:
     if k < 7:
       return ['s', r.below(3)]
     if k == 7:
-      return ['q']
+      return ['q'] if r.chance(0.7) else ['T', r.randint(1, 3)]
     if self.static and k >= 7 and r.chance(0.6):
       return r.weighted([(4, ['R', r.below(64)]), (2, ['R']), (3, ['I']), (2, ['q'])])
     if k == 8 and r.chance(self.p_ref):
@@ -50,7 +50,8 @@ class Gen:
   def lit_key(self):
     r = self.r
     if r.chance(0.85):
-      return ['k', r.below(4)]
+      # a quarter of the string keys look like path expressions ('m.c', 'w[0]', 'a b', 'x]y.')
+      return ['k', r.below(4) if r.chance(0.75) else r.randint(4, 7)]
     return ['i', r.randint(-1, 3)]
 
   def value(self, depth, refs=0.3, flagged=False):
@@ -74,6 +75,8 @@ class Gen:
     if flagged and k == 9:
       return ['o', r.below(2), [flags[0] and self.static, True, flags[2]],
               [[r.below(3), self.value(depth - 1, refs, flagged)] for _ in range(min(n, 3))]]
+    if flagged and k == 8 and r.chance(0.5):
+      return ['tl', [['o', 0, list(F), [[r.below(2), self.value(depth - 1, 0.0)]]] for _ in range(r.randint(0, 3))]]
     if k % 2 == 0:
       keys = []
       items = []
@@ -146,10 +149,15 @@ class Gen:
         (8, 'lset'), (4, 'ldel'), (6, 'lappend'), (7, 'linsert'), (4, 'lextend'), (2, 'liadd'),
         (4, 'lpop'), (2, 'lremove'), (2, 'lclear'), (4, 'lsort'), (4, 'lreverse'), (2, 'limul'),
         (6, 'lslice'), (5, 'ldelslice'), (2, 'seal'),
-        (4, 'oset'), (9, 'rebind'), (4, 'clone'), (3, 'new')])
+        (3, 'tlset'), (2, 'tlappend'), (2, 'tlins'), (1, 'tldel'), (1, 'tlpop'),
+        (4, 'oset'), (9, 'rebind'), (4, 'clone'), (3, 'new'), (3, 'newjson')])
     j = {'op': name, 't': r.below(64), 'n': not r.chance(notify_off)}
     if name == 'new':
       j['v'] = self.container(r.randint(1, 3), 0.3, True)
+    elif name == 'newjson':
+      # deserialization: nested values (objects with symbolic children included) through JSON
+      j['v'] = self.container(r.randint(1, 4), 0.0, True)
+      j['str'] = r.chance(0.5)
     elif name == 'clone':
       j['deep'] = r.chance(0.5)
     elif name in ('dset', 'dsetdefault'):
@@ -160,6 +168,14 @@ class Gen:
     elif name == 'lset':
       j['key'] = self.idx()
       j['v'] = self.top_value()
+    elif name in ('tlset', 'tlins', 'tlappend'):
+      # typed list: an instance of C0 (new or existing) is accepted, anything else is rejected
+      j['key'] = self.idx()
+      k = r.below(10)
+      j['v'] = (['o', 0, list(F), [[r.below(2), self.value(1, 0.0)]]] if k < 4 else self.ref() if k < 7
+                else r.below(4))
+    elif name in ('tldel', 'tlpop'):
+      j['key'] = self.idx()
     elif name in ('ldel', 'lpop'):
       j['key'] = self.idx()
     elif name == 'lappend':
@@ -199,7 +215,10 @@ class Gen:
     r = self.r
     ops = []
     for _ in range(r.randint(1, 3)):
-      ops.append({'op': 'new', 'v': self.container(r.randint(1, 4), 0.15, True)})
+      if r.chance(0.25):
+        ops.append({'op': 'newjson', 'v': self.container(r.randint(2, 4), 0.0, True), 'str': r.chance(0.5)})
+      else:
+        ops.append({'op': 'new', 'v': self.container(r.randint(1, 4), 0.15, True)})
     n = r.weighted([(2, r.randint(1, 4)), (5, r.randint(5, 15)), (4, r.randint(16, max_ops))])
     off = r.weighted([(5, 0.0), (4, 0.25), (1, 0.9)])
     for _ in range(n):
